@@ -851,6 +851,10 @@ class Client:
                     return []
                 break
 
+            # Stop if for some reason the list was empty
+            if not response.information:
+                break
+
             for attribute_handle, attribute_uuid in response.information:
                 if attribute_handle < starting_handle:
                     # Something's not right
@@ -863,7 +867,9 @@ class Client:
                 attributes.append(attribute)
 
             # Move on to the next attributes
-            starting_handle = attributes[-1].handle + 1
+            starting_handle = response.information[-1][0] + 1
+            if starting_handle > ending_handle:
+                break
 
         return attributes
 
